@@ -183,6 +183,70 @@ theorem overlapProjection1_energy {nr nc : ℕ} (hr : 0 < nr) (hc : 0 < nc) (pat
       ([probe], mulImg p0 probe) hstart
     exact ⟨this.1, this.2.trans (energy_mulImg_unit hprobe h0 h0u)⟩
 
+/-! ### absorbing objects (`|O| ≤ 1`, e.g. the clamped amplitude of `obj_type = "complex"`): energy can only decrease -/
+/-- every entry of the image has modulus at most one -/
+def SubUnit (P : Img ℝ) : Prop := ∀ row ∈ P, ∀ z ∈ row, Cx.abs2 z ≤ 1
+
+theorem subUnit_build {nr nc : ℕ} {g : ℕ → ℕ → Cx ℝ} :
+    SubUnit (build nr nc g) ↔ ∀ k < nr, ∀ l < nc, Cx.abs2 (g k l) ≤ 1 := by
+  unfold SubUnit build vbuild
+  constructor
+  · intro h k hk l hl
+    exact h _ (List.mem_map.2 ⟨k, List.mem_range.2 hk, rfl⟩) _ (List.mem_map.2 ⟨l, List.mem_range.2 hl, rfl⟩)
+  · intro h row hrow z hz
+    obtain ⟨k, hk, rfl⟩ := List.mem_map.1 hrow
+    obtain ⟨l, hl, rfl⟩ := List.mem_map.1 hz
+    exact h k (List.mem_range.1 hk) l (List.mem_range.1 hl)
+
+theorem UnitModulus.subUnit {P : Img ℝ} (h : UnitModulus P) : SubUnit P :=
+  fun row hrow z hz => (h row hrow z hz).le
+
+theorem energy_mulImg_le {nr nc : ℕ} {a P : Img ℝ} (ha : Rect nr nc a)
+    (hP : Rect nr nc P) (hu : SubUnit P) : energy (mulImg P a) ≤ energy a := by
+  obtain ⟨f, rfl⟩ := ha.cx_build
+  obtain ⟨g, rfl⟩ := hP.cx_build
+  rw [mulImg_build, energy_build, energy_build]
+  refine sum_le_sum fun k hk => sum_le_sum fun l hl => ?_
+  rw [← abs2_eq, ← abs2_eq, abs2_mul]
+  have h1 := subUnit_build.1 hu k (mem_range.1 hk) l (mem_range.1 hl)
+  have h0 : 0 ≤ Cx.abs2 (f k l) := by rw [abs2_eq]; exact Complex.normSq_nonneg _
+  nlinarith
+
+theorem overlap_foldl_energy_le {nr nc : ℕ} (hr : 0 < nr) (hc : 0 < nc) (l : List (Img ℝ × Img ℝ))
+    (hl : ∀ pp ∈ l, (Rect nr nc pp.1 ∧ UnitModulus pp.1) ∧ (Rect nr nc pp.2 ∧ SubUnit pp.2))
+    (acc : List (Img ℝ) × Img ℝ) (hacc : Rect nr nc acc.2) :
+    let out := l.foldl (fun acc pp => (acc.1 ++ [propagate acc.2 pp.1], mulImg pp.2 (propagate acc.2 pp.1))) acc
+    Rect nr nc out.2 ∧ energy out.2 ≤ energy acc.2 := by
+  induction l generalizing acc with
+  | nil => exact ⟨hacc, le_refl _⟩
+  | cons pp rest ih =>
+    obtain ⟨⟨hP, hPu⟩, ⟨hO, hOu⟩⟩ := hl pp List.mem_cons_self
+    have hprop : Rect nr nc (propagate acc.2 pp.1) := rect_propagate hr hc hacc hP
+    have hnext : Rect nr nc (mulImg pp.2 (propagate acc.2 pp.1)) := rect_mulImg hO hprop
+    have := ih (fun q hq => hl q (List.mem_cons_of_mem _ hq))
+      (acc.1 ++ [propagate acc.2 pp.1], mulImg pp.2 (propagate acc.2 pp.1)) hnext
+    simp only [List.foldl_cons]
+    refine ⟨this.1, le_trans this.2 ?_⟩
+    show energy (mulImg pp.2 (propagate acc.2 pp.1)) ≤ energy acc.2
+    exact le_trans (energy_mulImg_le hprop hO hOu) (energy_propagate hr hc hacc hP hPu).le
+
+theorem overlapProjection1_energy_le {nr nc : ℕ} (hr : 0 < nr) (hc : 0 < nc) (patches props : List (Img ℝ))
+    (probe : Img ℝ) (hprobe : Rect nr nc probe)
+    (hpatch : ∀ O ∈ patches, Rect nr nc O ∧ SubUnit O)
+    (hprops : ∀ P ∈ props, Rect nr nc P ∧ UnitModulus P) :
+    Rect nr nc (overlapProjection1 patches props probe).2
+      ∧ energy (overlapProjection1 patches props probe).2 ≤ energy probe := by
+  cases patches with
+  | nil => exact ⟨hprobe, le_refl _⟩
+  | cons p0 rest =>
+    obtain ⟨h0, h0u⟩ := hpatch p0 List.mem_cons_self
+    have hstart : Rect nr nc (mulImg p0 probe) := rect_mulImg h0 hprobe
+    have := overlap_foldl_energy_le hr hc (List.zip props rest)
+      (fun pp hpp => ⟨hprops _ (List.of_mem_zip hpp).1,
+        hpatch _ (List.mem_cons_of_mem _ (List.of_mem_zip hpp).2)⟩)
+      ([probe], mulImg p0 probe) hstart
+    exact ⟨this.1, le_trans this.2 (energy_mulImg_le hprobe h0 h0u)⟩
+
 /-! ### detector: summed intensity = total exit-wave energy -/
 theorem rsum_eq (x : RImg ℝ) : rsum x = (x.map List.sum).sum := by
   unfold rsum
